@@ -192,6 +192,20 @@ def run(ctx):
         events.append({"op": "Ident", "a": ja, "b": list(reversed(ja)), "same": again is first[i]})
         j = (i + 7) % len(pool)
         events.append({"op": "Ident", "a": ja, "b": [{"p": list(x), "R": []} for x in pool[j]], "same": first[j] is first[i]})
+    # a very long session: tens of thousands of further classes (one-element bases of length 10: all distinct from the pool),
+    # the objects handed out first still held; then the same bases are asked for again
+    more = set()
+    while len(more) < (70000 if quick else 300000):
+        more.add(util.rand_perm(rnd, 10))
+    for q in more:
+        Av(Basis(Perm(q)))
+    ctx.note("very_long_session_classes", len(pool) + len(more))
+    for i in list(range(0, 12)) + [rnd.randrange(len(pool)) for _ in range(12)]:
+        a, b = pool[i]
+        again = Av.from_iterable([Perm(a), Perm(b)]) if i % 2 else Av(Basis(Perm(a), Perm(b)))
+        ja = [{"p": list(a), "R": []}, {"p": list(b), "R": []}]
+        events.append({"op": "Ident", "a": ja, "b": ja, "same": again is first[i]})
+    del more
     Av.clear_cache()
     v = util.validate_trace(ctx, "Trace_C05", events, ntraces=len(events))
     ctx.case(n=len(events))
